@@ -134,6 +134,10 @@ class Exec(ExprMixin, CallMixin):
       elif kind == 'nvar':
         # definite description of store_nvar: name = (g, has array), t = candidate count
         out.append(nvar_is(name[0], name[1], t))
+      elif kind == 'zip':
+        # definite description of zip_last for the sequence (name = array K, t = length n)
+        from pyvc.expr import zip_axioms
+        out.append(zip_axioms(name, t))
       else:
         raise ValueError(kind)
     return out
